@@ -1,6 +1,6 @@
 """C16 - codecs and conversions: encoder/decoder table agreement, representation-independent rendering (static clauses)."""
 import re
-from .core import (CheckError, find_match, arm_region, pat_str, strip_ref, origins, only_when, pat_paths,
+from .core import (builds_error, CheckError, find_match, arm_region, pat_str, strip_ref, origins, only_when, pat_paths,
                    Registry, op_local, bool_switches, fmt_templates)
 from .census import Census
 from . import c14_tables as T
@@ -55,16 +55,24 @@ def run(F, rep, tier):
                     rep.ok('R16.1', 'hex digit class %s' % k, 'c - %s %s' % (w[0][0], ('+ ' + w[1][0]) if w[1] else ''))
                 else:
                     rep.viol('R16.1', 'hex_decode|class|%s' % k, 'hex digit class %s decodes as %s, expected %s' % (k, tab.get(k), w), vb.loc(0))
-            if any(re.search(r'NErr::\w+_error$', c.target) for c in vb.calls):
+            if any(builds_error(F, c) for c in vb.calls):
                 rep.ok('R16.1', 'hex digit default', 'error')
             else:
                 rep.viol('R16.1', 'hex_decode|default', 'a non-hex character is not rejected', vb.loc(0))
-        rems = [s for i in hb.reach for s in hb.stmts(i) if s[0] == 'a' and s[2][0] == 'bin' and s[2][1] == 'Rem' and s[2][3][0] == 'k' and s[2][3][2].startswith('2_')]
-        errs = [c for c in hb.calls if re.search(r'NErr::\w+_error$', c.target)]
-        if len(rems) >= 2 and len(errs) >= 2:
-            rep.ok('R16.1', 'hex_decode length', 'len % 2 tested for strings and bytes, odd length raises')
+        # the body of the builtin together with the closures and nested helper functions defined under it
+        fam = [F.body(p_) for p_ in sorted(F.bodies_raw) if '::promoted' not in p_ and C.fn_key(p_).startswith('builtin(hex_decode)')]
+        chunk_fns = [b_ for b_ in fam if any(c.target.endswith('::chunks') or c.target.endswith('::chunks_exact') for c in b_.calls)]
+        bad_len = []
+        for b_ in chunk_fns:
+            rems = [(i, s_) for i in b_.reach for s_ in b_.stmts(i) if s_[0] == 'a' and s_[2][0] == 'bin' and s_[2][1] == 'Rem' and s_[2][3][0] == 'k' and s_[2][3][2].startswith('2_')]
+            chs = [c for c in b_.calls if c.target.endswith('::chunks') or c.target.endswith('::chunks_exact')]
+            errs = [c for c in b_.calls if builds_error(F, c)]
+            if not (rems and errs and all(any(b_.dominates(i, c.bb) for i, _s in rems) for c in chs)):
+                bad_len.append(b_)
+        if chunk_fns and not bad_len:
+            rep.ok('R16.1', 'hex_decode length', 'every chunks(2) is dominated by a len %% 2 test (%d site(s)); odd length raises' % sum(1 for b_ in chunk_fns for c in b_.calls if c.target.endswith('::chunks')))
         else:
-            rep.viol('R16.1', 'hex_decode|even-length', 'odd-length input is not rejected on both input kinds', hb.loc(0))
+            rep.viol('R16.1', 'hex_decode|even-length', 'odd-length input is not rejected before the digits are paired (in %s)' % ([b_.path for b_ in bad_len] or 'no chunks() found'), (bad_len[0] if bad_len else hb).loc(0))
         he = body('hex_encode')
         cls = [F.body(c) for c in F.closures_of(he.path)]
         if any('new_lower_hex' in c.target for b_ in cls + [he] for c in b_.calls):
